@@ -5,6 +5,8 @@ import (
 	"runtime"
 	"testing"
 	"testing/synctest"
+
+	"verifharness/vstat"
 )
 
 // Bubble runs f inside a synctest bubble (fake clock, quiescence detection). It returns a non-empty
@@ -21,7 +23,13 @@ func Bubble(t *testing.T, f func()) (panicMsg string) {
 		runtime.GC()
 		runtime.GC()
 	}()
-	synctest.Test(t, func(*testing.T) { f() })
+	setTag, stop := vstat.WatchBubble() // (started here, outside the bubble; see vstat/wedge.go)
+	defer stop()
+	synctest.Test(t, func(*testing.T) {
+		buf := make([]byte, 2048)
+		setTag(bubbleTag(string(buf[:runtime.Stack(buf, false)])))
+		f()
+	})
 	return ""
 }
 
